@@ -83,15 +83,14 @@ def Field.Ok (f : Field) : Prop :=
 /-- The struct of a case writes its discriminator: a required string field named `tag` that accepts
 only the case's label. -/
 def TagFixed (tag label : Str) (s : Schema) : Prop :=
-  ∃ fields keep, s = .obj fields keep ∧ ∃ f, f ∈ fields ∧ f.name = tag ∧ f.req = true ∧
-    ∃ norm, f.schema = .str norm ∧ ∀ a b, norm a = some b → b = label
+  ∃ fields keep, s = .obj fields keep ∧ ∃ f, f ∈ fields ∧ f.name = tag ∧ f.req = true ∧ f.ghost = false ∧
+    ∃ norm, f.schema = .scalar norm ∧ ∀ a b, norm a = some b → b = .str label
 
 inductive WF : Schema → Prop
   | any : WF .any
-  | int (lo hi : Int) : WF (.int lo hi)
-  | bool : WF .bool
-  /-- What a string-like type writes back, it reads back unchanged. -/
-  | str {norm : Str → Option Str} : (∀ a b, norm a = some b → norm b = some b) → WF (.str norm)
+  /-- What a scalar type writes back, it reads back unchanged; it writes `null` only for `null`. -/
+  | scalar {norm : JVal → Option JVal} :
+      (∀ a b, norm a = some b → norm b = some b) → (∀ a, norm a = some .null → a = .null) → WF (.scalar norm)
   | arr {e : Schema} : WF e → WF (.arr e)
   | map {ok : Str → Bool} {s : Schema} : WF s → WF (.map ok s)
   | obj {fields : List Field} {keep : Bool} :
@@ -100,7 +99,7 @@ inductive WF : Schema → Prop
   | tagged {tag : Str} {cases : List Case} :
       (∀ c, c ∈ cases → WF c.schema) → (∀ c, c ∈ cases → TagFixed tag c.label c.schema) → WF (.tagged tag cases)
 
-/-- A string-like type that writes back what it read. -/
-def Verbatim (norm : Str → Option Str) : Prop := ∀ a b, norm a = some b → b = a
+/-- A scalar type that writes back what it read. -/
+def Verbatim (norm : JVal → Option JVal) : Prop := ∀ a b, norm a = some b → b = a
 
 end Ruma.ContentSchema
